@@ -115,13 +115,13 @@ class Track(object):
                     chord = NoteContainer().from_chord(chord)
                     if tun:
                         chord = tun.find_chord_fingering(chord, return_best_as_NoteContainer=True)
-                if not self.add_notes(chord, duration):
+                while not self.add_notes(chord, duration):
                     # This should be the standard behaviour of add_notes
                     dur = self.bars[-1].value_left()
                     self.add_notes(chord, dur)
 
                     # warning should hold note
-                    self.add_notes(chord, value.subtract(duration, dur))
+                    duration = value.subtract(duration, dur)
 
         for c in chords:
             add_chord(c, duration)
